@@ -18,7 +18,7 @@ def seeded():
         need = (m.get("needs_to_manifest") or "").replace("|", "/").replace("\n", " ")
         need = need[:230] + ("…" if len(need) > 230 else "")
         rows.append(f"| `{d.parent.name}` {(m.get('title') or '')[:90]} | {m['property']} | {need} | {'silent' if c.get('suite_ok') else ('not re-run' if c.get('suite_ok') is None else 'NOTICED')} | "
-                    f"{c.get('demo_clean_exit')} / {c.get('demo_mutated_exit')} | {chk} | **{'caught' if m.get('caught') else 'MISSED'}** |")
+                    f"{c.get('demo_clean_exit')} / {c.get('demo_mutated_exit')} | {chk} | **{'neutralised by a repair (see note)' if m.get('status') == 'neutralised' else 'caught' if m.get('caught') else 'MISSED'}** |")
     return "\n".join(rows)
 
 
